@@ -34,10 +34,10 @@ VARIANTS = {
     "asan": dict(
         cc="gcc",
         cflags="-O1 %s -fsanitize=address,undefined,float-cast-overflow -fno-sanitize-recover=all" % SAN_COMMON,
-        shim=True, threading=False, ld="-lm -ldl",
+        shim=True, threading=False, ld="-lm -ldl -lpthread",
         drivers=["jcdrv", "splitdrv", "faultdrv", "lhenum"]),
     "plain": dict(
-        cc="gcc", cflags="-O1 -g", shim=True, threading=False, ld="-lm -ldl",
+        cc="gcc", cflags="-O1 -g", shim=True, threading=False, ld="-lm -ldl -lpthread",
         drivers=["jcdrv", "splitdrv"]),
     "tsan": dict(
         cc="gcc", cflags="-O1 -g -fsanitize=thread", shim=False, threading=True, ld="-lm -lpthread",
